@@ -28,7 +28,9 @@ def _leaves(e, types):
     k = e[0]
     if k in ("f", "it"):
         return [types[tuple(e[1]) if k == "f" else ("it",) + tuple(e[1:])]]
-    if k in ("lit", "enum", "idx"):
+    if k == "lit":
+        return [(max(32, e[1].bit_length() + 1), True)]
+    if k in ("enum", "idx"):
         return [(32, True)]
     if k == "ulit":
         return [(e[2], False)]
@@ -512,12 +514,45 @@ def subscript_rand_programs():
     return out
 
 
+def wide_literal_programs(tier):
+    """Python int literals that need more than 32 bits, against fields of every width"""
+    out = []
+    lits = [2**32, 2**33 - 1, -2**32, 2**63, 2**64 - 1, -2**63 - 1, 2**31, -2**31 - 1, 2**40 + 5]
+    tys = [("u", 8), ("s", 8), ("u", 32), ("s", 32), ("u", 64), ("s", 64), ("u", 33)]
+    n = 0
+    for t in tys:
+        for op in ("<", ">", "==", "!=", "<=", ">="):
+            for v in lits:
+                n += 1
+                if tier != "thorough" and n % 6:
+                    continue
+                out.append(spec_single("wide_literal", "%s%d %s %d" % (t[0], t[1], op, v), [fld("a", t), fld("b", t)],
+                                       [E([op, F("a"), lit(v)]), E(["!=", F("b"), ["+", F("a"), lit(v)]])] if n % 2 else [E([op, F("a"), lit(v)])]))
+    return out
+
+
+def empty_membership_programs():
+    """membership in an empty list / an emptied rangelist is false, not_inside of it is true"""
+    out = []
+    a_ = F("a")
+    lf = [fld("a", ("u", 8)), fld("b", ("s", 8)), ["m", "list", ["u", 8], 0, False, False], ["rl", "rl", [lit(1)]], fld("c", ("u", 8), False)]
+    for nm, st in (("in_list", [E(["in_list", a_, ["m"]])]), ("notin_list", [E(["notin_list", a_, ["m"]])]),
+                   ("in_rl", [E(["in_rl", a_, ["rl"]])]), ("notin_rl", [E(["notin_rl", F("b"), ["rl"]])]),
+                   ("if_in_list", [["if", [[["in_list", a_, ["m"]], [E(["==", F("b"), lit(1)])]]], [E(["==", F("b"), lit(2)])]]]),
+                   ("or_in_rl", [E(["|", ["in_rl", a_, ["rl"]], ["<", a_, lit(3)]])])):
+        out.append({"tag": "empty_membership", "desc": nm, "prog": one_class(lf, st), "world": [["top", "obj", "Top"]],
+                    "ops": [["rl_clear", ["top", "rl"]], ["randomize", ["top"]], ["list_append", ["top", "m"], 7], ["rl_append", ["top", "rl"], lit(7)], ["randomize", ["top"]],
+                            ["list_clear", ["top", "m"]], ["rl_clear", ["top", "rl"]], ["randomize", ["top"]], ["randomize_with", ["top"], [E([">", a_, lit(1)])]]]})
+    return out
+
+
 def c01_programs(tier, sd):
     rnd = random.Random(sd)
     out = atomic_programs(tier, rnd) + statement_programs(tier, rnd) + structure_programs(tier, rnd) + constfold_programs(tier, rnd) + \
         rangelist_history_programs(tier, rnd)
     sr = subscript_rand_programs()
     out += sr if tier == "thorough" else sr[::3]
+    out += wide_literal_programs(tier)
     if tier == "thorough":
         out += random_programs(rnd, 12000) + random_struct_programs(rnd, 4000)
     else:
@@ -870,6 +905,7 @@ def c02_programs(tier, sd):
         extra.append(spec_single("satedge", "merge through a list subscript %s" % (st,), lf, st, [{"n": v} for v in (0, 4, 5, 7, 200)], calls=("randomize", "randomize_with")))
     sr = subscript_rand_programs()
     extra += sr if tier == "thorough" else sr[1::3]
+    extra += wide_literal_programs(tier) + empty_membership_programs()
     return constfold_programs(tier, rnd) + unsat_programs(tier, rnd) + sum_edge_programs(tier, rnd) + extra + base + structure_programs(tier, rnd) + rangelist_history_programs(tier, rnd) + \
         random_programs(random.Random(sd + 1), 12000 if tier == "thorough" else 150)
 
